@@ -198,6 +198,8 @@ def run(ctx):
             ctx.ob(R5, f'{a}·variants', not missing, f'{a}: variants {len(variants)}; not serialized: {missing}', [b.loc])
     ctx.floor(R5, n5, 8, 'types serialized into the manifest')
     commit_publishes_rule(ctx, prog, 'C03-R7')
+    from rules.c04 import boot_vacuum_always
+    boot_vacuum_always(ctx, prog, 'C03-R8')
 
 
 def commit_publishes_rule(ctx, prog, rid):
